@@ -481,6 +481,8 @@ def gen_case(rng, nblocks=None, with_data=True, with_funcs=True, nedits=None, cf
             mine = [x for x in text if x["kind"] == "code" and x.get("func") == d["func"]]
             # now and then the entry is not the first block of its function in the layout
             (rng.choice(mine) if len(mine) > 1 and rng.random() < 0.15 else d)["entry"] = True
+            if len(mine) > 1 and rng.random() < 0.1:
+                rng.choice(mine)["entry"] = True        # a second entry block
     case = {"isa": "X64", "ff": "ELF", "text": text, "externs": externs}
     if with_data and rng.random() < 0.2:
         # a second section with data blocks (symbols, pointers into the code)
@@ -512,6 +514,24 @@ def gen_case(rng, nblocks=None, with_data=True, with_funcs=True, nedits=None, cf
                               for y in x["syms"] if not y.get("at_end")), None)
                 asm = "call %s\nret" % entry if entry else "nop\nret"
             case["edits"].append({"op": "replace", "block": i, "off": offs[-2], "len": offs[-1] - offs[-2], "asm": asm})
+    if nedits is None and rng.random() < 0.12:
+        # a replacement of exactly the same length: an instruction with a symbolic operand makes way for one
+        # without, and the other way round
+        cands = []
+        for i, d in enumerate(text):
+            if d["kind"] != "code" or any(e["block"] == i and e.get("all") is None for e in case["edits"]):
+                continue
+            offs = block_layout(d)
+            for k, ins in enumerate(d["insns"]):
+                if ins[0] == "lea":
+                    cands.append((i, offs[k], 7, "movq $0, %rax"))
+                elif ins[0] == "call":
+                    cands.append((i, offs[k], 5, "movl $%d, %%eax" % fresh_imm(rng)))
+                elif ins[0] == "mov" and k < len(d["insns"]) - 1 and code_labels:
+                    cands.append((i, offs[k], 5, "movl $%d, %%ebx" % fresh_imm(rng)))
+        if cands:
+            i, off, ln, asm = rng.choice(cands)
+            case["edits"].append({"op": "replace", "block": i, "off": off, "len": ln, "asm": asm})
     # module entry point, DT_INIT and DT_FINI on code blocks
     code_idx = [i for i, d in enumerate(text) if d["kind"] == "code"]
     for key, p in (("entry", 0.25), ("init", 0.2), ("fini", 0.2)):
@@ -551,6 +571,8 @@ PATCHES = [
     lambda rng, L, X: "addl $%d, %s(%%rip)" % (rng.randint(1, 99), rng.choice(L)),
     lambda rng, L, X: "movl $%d, %s+%d(%%rip)" % (fresh_imm(rng), rng.choice(L), rng.choice([4, 8])),
     lambda rng, L, X: "pushq %rax\n.cfi_adjust_cfa_offset 8\npopq %rax\n.cfi_adjust_cfa_offset -8",
+    lambda rng, L, X: ".Lspin:\nnop\njne .Lspin",
+    lambda rng, L, X: ".Lspin:\nmovl $%d, %%eax\njne .Lspin\nnop" % fresh_imm(rng),
 ]
 DATA_PATCHES = [
     lambda rng, L, X: ".byte %d, %d" % (rng.randrange(256), rng.randrange(256)),
